@@ -67,10 +67,41 @@ type TypeSpec interface {
 // For most types, this is the type itself. For Typedefs, it is the root
 // TypeSpec of the Typedef's target.
 func RootTypeSpec(s TypeSpec) TypeSpec {
-	if t, ok := s.(*TypedefSpec); ok {
+	t, ok := s.(*TypedefSpec)
+	if !ok {
+		return s
+	}
+	if t.root != nil || !t.rootPending {
 		return t.root
 	}
-	return s
+
+	// Link could not tell the root because the target was a typedef that was
+	// itself being linked at the time (typedef B A, typedef C B, struct C
+	// {1: optional A a}: linking B gets to A through C, and A finds B without
+	// a root). The root of the target may be known by now, so follow the
+	// targets -- as far as they do not repeat: typedefs that refer to each
+	// other directly have no root.
+	seen := []*TypedefSpec{t}
+	for {
+		next, ok := seen[len(seen)-1].Target.(*TypedefSpec)
+		if !ok {
+			return nil
+		}
+		if next.root != nil {
+			t.root = next.root
+			t.rootPending = false
+			return t.root
+		}
+		if !next.rootPending {
+			return nil
+		}
+		for _, s := range seen {
+			if s == next {
+				return nil
+			}
+		}
+		seen = append(seen, next)
+	}
 }
 
 // nativeThriftType is the common parent for all TypeSpecs that are native
